@@ -57,8 +57,9 @@ TData == /\ IsEvent("data")
          /\ Expect(Ev.s \in DOMAIN body, "data-on-unknown-stream")
          /\ IF Ev.s \in DOMAIN body
             THEN LET s == Ev.s n == Ev.n IN
-                 /\ Expect(sent[s] + n <= sgrant[s], "stream-window-exceeded")
-                 /\ Expect(csent + n <= cgrant, "connection-window-exceeded")
+                 \* (an empty DATA frame, e.g. the one carrying END_STREAM, is not subject to flow control: RFC 7540 6.9.1)
+                 /\ Expect(n = 0 \/ sent[s] + n <= sgrant[s], "stream-window-exceeded")
+                 /\ Expect(n = 0 \/ csent + n <= cgrant, "connection-window-exceeded")
                  /\ Expect(n <= tmfs, "frame-size-exceeded")
                  /\ Expect(sent[s] + n <= body[s], "body-overrun")
                  /\ Expect(~ended[s], "data-after-end-of-stream")
